@@ -402,3 +402,36 @@ def run(index, rep, tier):
                 rep.check(not missing, "R16.12", fi.qualname, "`%s.%s` assigned, %s kept" % (base, w.attr, missing), fn_where(fi, w.stmt), "%s: %s.%s assigned and %s dropped" % (fi.name, base, w.attr, need),
                           "%s assigns `%s.%s` but leaves the state's cached %s in place, although the getter of that cache reads `%s`: a state whose index set was computed once (by an earlier scoring call) keeps it after the alphabet is recompiled - the gap, read as missing data, does not cover a fundamental state added later, and a symbol designated as the gap after a first scoring call is still scored as an ordinary state, so the score of (tree, matrix) depends on what the alphabet was used for before" % (fi.qualname, base, w.attr, ", ".join(missing), w.attr))
         rep.floor("R16.12", "assignments of designation fields from outside the state", 3, n12)
+
+    # ---- R16.13 a state set is the expansion of the state, whatever kind of state it is
+    with rep.section("R16.13"):
+        rep.rule("R16.13", "a state set is the expansion of the state, whatever kind of state it is: every value a StateIdentity getter stores into `_fundamental_symbols`, `_fundamental_indexes` or `_fundamental_indexes_with_gaps_as_missing` is computed from `fundamental_states` (directly or through a local filtered from it) or delegated to the same property of another state (the gap standing in for 'no data') - never from the state's own `_index` / `symbol`: a polymorphic `(01)` or ambiguous `{01}` state has no fundamental index of its own (the reader gives symbol-less ones the index None), so Fitch would score it as a state different from both 0 and 1")
+        sicls = index.klass("dendropy.datamodel.charstatemodel.StateIdentity")
+        n13 = 0
+        for gname, gf in sorted(sicls.methods.items()):
+            for st in ast.walk(gf.node):
+                if not (isinstance(st, ast.Assign) and len(st.targets) == 1 and isinstance(st.targets[0], ast.Attribute) and norm(st.targets[0].value) == "self"
+                        and st.targets[0].attr in ("_fundamental_symbols", "_fundamental_indexes", "_fundamental_indexes_with_gaps_as_missing")):
+                    continue
+                if is_none(st.value):
+                    continue
+                n13 += 1
+                seen_names, work, texts = set(), [st.value], []
+                while work:
+                    e_ = work.pop()
+                    texts.append(norm(e_))
+                    for x in ast.walk(e_):
+                        if isinstance(x, ast.Name) and isinstance(x.ctx, ast.Load) and x.id not in seen_names:
+                            seen_names.add(x.id)
+                            work.extend(a.value for a in ast.walk(gf.node) if isinstance(a, ast.Assign) and any(isinstance(t_, ast.Name) and t_.id == x.id for t_ in a.targets))
+                blob = " ".join(texts)
+                ok_ = "fundamental_states" in blob or (("." + st.targets[0].attr.lstrip("_")) in blob and "self." + st.targets[0].attr.lstrip("_") not in blob)
+                rep.check(ok_, "R16.13", gf.qualname, "`%s` not computed from the fundamental states" % st.targets[0].attr, fn_where(gf, st), "%s: `%s` expands fundamental_states" % (gname, norm_stmt(st)[:60]),
+                          "%s stores `%s`: the state set is not computed from `fundamental_states` - a multistate cell (polymorphic `(01)`, or any state with member states) is reduced to its own index, which for symbol-less states is None, so with gaps treated as missing (the default) `((a,b),(c,d))` with a=(01), b=c=d=1 scores 1 instead of 0" % (gf.qualname, norm_stmt(st)[:70]))
+        rep.floor("R16.13", "stores into the state-set caches", 3, n13)
+
+    # ---- R16.14 the passes walk a tree of any depth
+    with rep.section("R16.14"):
+        rep.rule("R16.14", "the scoring passes walk a tree of any depth (C07 R07.11): Node.postorder_iter / preorder_iter, which fitch_down_pass and fitch_up_pass are fed from, contain no call of the same method on another node - a recursive generator makes a ladder tree of 1500 leaves unscorable (RecursionError) while the parsimony code itself is iterative")
+        nb = borrow(index, rep, "C07", {"R07.11"}, "R16.14")
+        rep.floor("R16.14", "borrowed obligations", 2, nb)
